@@ -4,7 +4,8 @@ patterns for the Lean driver as `<type index>:<v1>,<v2>,..` with `_` = unspecifi
 import itertools
 
 
-def universe():
+def universe(optional=False):
+    """`optional`: add the response type that has optional trailing parameters (ZDO.IeeeAddrReq.Rsp)"""
     from zigpy_zboss import commands as c
     import zigpy_zboss.types as t
     A = c.NcpConfig.GetZigbeeRole.Rsp
@@ -16,6 +17,12 @@ def universe():
         A: [("TSN", [1, 2]), ("StatusCat", [sc(0)]), ("StatusCode", [sg(0), sg(1)]), ("DeviceRole", [t.DeviceRole(0), t.DeviceRole(1)])],
         B: [("TSN", [1, 2]), ("StatusCat", [sc(0)]), ("StatusCode", [sg(0)]), ("NWKAddr", [t.NWK(0x1234), t.NWK(0)])],
     }
+    if optional:
+        O = c.ZDO.IeeeAddrReq.Rsp
+        ieee = t.EUI64.convert("00:11:22:33:44:55:66:77")
+        doms[O] = [("TSN", [1]), ("StatusCat", [sc(0)]), ("StatusCode", [sg(0)]), ("RemoteDevIEEE", [ieee]),
+                   ("RemoteDevNWK", [t.NWK(0x1234), t.NWK(0)]), ("NumAssocDev", [0, 1]), ("StartIndex", [0])]
+        return [A, B, O], doms
     return [A, B], doms
 
 
@@ -24,7 +31,13 @@ def encode(classes, cmd):
     vals = []
     for p in type(cmd).schema:
         v = getattr(cmd, p.name)
-        vals.append("_" if v is None else str(int(v)))
+        if v is None:
+            vals.append("_")
+        else:
+            try:
+                vals.append(str(int(v)))
+            except (TypeError, ValueError):
+                vals.append(str(int.from_bytes(v.serialize(), "little")))
     return "%d:%s" % (k + 1, ",".join(vals) if vals else "-")
 
 
@@ -35,15 +48,25 @@ def all_patterns(cls, dom):
     out = []
     for combo in itertools.product(*choices):
         kw = {n: v for n, v in zip(names, combo) if v is not None}
-        out.append(cls(partial=True, **kw))
+        try:
+            out.append(cls(partial=True, **kw))
+        except KeyError:
+            pass            # optional parameters must be given as a prefix of their order
     return out
 
 
 def all_concrete(cls, dom):
-    names = [n for n, _ in dom]
+    """every complete command over the domain; optional trailing parameters present as every prefix"""
+    opt = [p.name for p in cls.schema if p.optional]
+    names = [n for n, _ in dom if n not in opt]
     out = []
-    for combo in itertools.product(*[vs for _, vs in dom]):
-        out.append(cls(**dict(zip(names, combo))))
+    for combo in itertools.product(*[vs for n, vs in dom if n not in opt]):
+        base = dict(zip(names, combo))
+        out.append(cls(**base))
+        given = [(n, vs) for n, vs in dom if n in opt]
+        for k in range(1, len(given) + 1):
+            for oc in itertools.product(*[vs for _, vs in given[:k]]):
+                out.append(cls(**base, **dict(zip([n for n, _ in given[:k]], oc))))
     return out
 
 
